@@ -341,6 +341,12 @@ def no_new_state(ck, rels, rule='STATE-no-memory'):
                         qual, p_.arg, u(d_)[:40], 'only read' if p_.arg not in mutated_ else 'written into: it then carries content from one call to the next'),
                         key='{}|default|{}|{}|{}'.format(rule, rel, qual, p_.arg))
             own_locals = {n.id for n in walk_local(fn) if isinstance(n, ast.Name) and isinstance(n.ctx, ast.Store)}
+            # a local that is just another name for a module- / class-level container
+            aliases = {}
+            for n in walk_local(fn):
+                if isinstance(n, ast.Assign) and len(n.targets) == 1 and isinstance(n.targets[0], ast.Name) and isinstance(n.value, ast.Name) and n.value.id in cands \
+                        and n.value.id not in own_locals:
+                    aliases[n.targets[0].id] = n.value.id
             for n in walk_local(fn):
                 tgt = None
                 if isinstance(n, (ast.Subscript, ast.Attribute)) and isinstance(n.ctx, (ast.Store, ast.Del)):
@@ -357,6 +363,13 @@ def no_new_state(ck, rels, rule='STATE-no-memory'):
                     continue
                 b = base_name(tgt)
                 t = u(tgt)
+                if b in aliases:
+                    nmod += 1
+                    reason = SHARED_STATE_ALLOWED.get((rel, aliases[b]))
+                    ck.ob(rule, m.loc(n), reason is not None, '{} writes into the shared container `{}` through its local name `{}`{}'.format(
+                        qual, aliases[b], b, ' -- allowed: ' + reason if reason else ': module-level state that survives between calls'),
+                        key='{}|module|{}|{}|{}'.format(rule, rel, aliases[b], qual))
+                    continue
                 for c in cands:
                     short = c.split('.')[-1]
                     hit = (b == c and c not in own_locals) or ('.' in c and b in ('self', 'cls', c.split('.')[0]) and
